@@ -242,30 +242,29 @@ func genArgposCases(r *h.Rand) []h.Case {
 		args = append(args, r.Pick(pool))
 	}
 	join := func(xs []string) string { return strings.Join(xs, ", ") }
-	shape := func(f string) string {
-		return f
-	}
-	_ = shape
-	var spell func(f string) string
-	switch form := r.Intn(5); {
-	case n == 0 || form == 0:
-		spell = func(f string) string { return f + "(" + join(args) + ")" }
-	case form == 1:
-		spell = func(f string) string { return f + ": " + join(args) }
-	case form == 2:
-		spell = func(f string) string { return args[0] + " | " + f + "(" + join(args[1:]) + ")" }
-	case form == 3:
-		k := r.Intn(n)
-		with := append([]string{}, args...)
-		with[k] = "_"
-		piped := args[k]
-		spell = func(f string) string { return piped + " | " + f + "(" + join(with) + ")" }
-	default:
-		spell = func(f string) string { return args[0] + " | ident | " + f + ": " + join(args[1:]) }
-		if n == 1 {
-			spell = func(f string) string { return args[0] + " | ident | " + f }
+	form := r.Intn(5)
+	slot := r.Intn(5)
+	spellOf := func(f string, args []string) string {
+		n := len(args)
+		switch {
+		case n == 0 || form == 0:
+			return f + "(" + join(args) + ")"
+		case form == 1:
+			return f + ": " + join(args)
+		case form == 2:
+			return args[0] + " | " + f + "(" + join(args[1:]) + ")"
+		case form == 3:
+			k := slot % n
+			with := append([]string{}, args...)
+			with[k] = "_"
+			return args[k] + " | " + f + "(" + join(with) + ")"
 		}
+		if n == 1 {
+			return args[0] + " | ident | " + f
+		}
+		return args[0] + " | ident | " + f + ": " + join(args[1:])
 	}
+	spell := func(f string) string { return spellOf(f, args) }
 	var cs []h.Case
 	mk := func(stream string, a, b string) {
 		meta := sx.L(sx.A("files"), sx.L(sx.S("/f0.jet"), sx.S(a)), sx.L(sx.S("/f1.jet"), sx.S(b)))
@@ -279,15 +278,11 @@ func genArgposCases(r *h.Rand) []h.Case {
 	// Get / NumOfArguments: rec (jet.Func) and refl (reflected, variadic interface{}) see the same vector
 	mk("argpos", "[{{ "+spell("rec")+" }}]", "[{{ "+spell("refl")+" }}]")
 	// ParseInto places piped and slot values where a reflected func(int, string, interface{}) gets them
-	a3 := []string{r.Pick([]string{"1", "i", "2.0", "st.A", "f", `"zz"`}), r.Pick([]string{`"a"`, "s", "st.B", "1"}), r.Pick(pool)}
+	a3 := []string{r.Pick([]string{"1", "i", "2.0", "st.A", "f", `"zz"`}), r.Pick([]string{`"a"`, "s", "st.B", "e"}), r.Pick(pool)}
 	if r.Chance(10) {
 		a3 = a3[:2]
 	}
-	save := args
-	args = a3
-	n = len(a3)
-	mk("argpos", "[{{ "+spell("parse3")+" }}]", "[{{ "+spell("refl3")+" }}]")
-	args = save
+	mk("argpos", "[{{ "+spellOf("parse3", a3)+" }}]", "[{{ "+spellOf("refl3", a3)+" }}]")
 	// IsSet(i) is isset of the i-th effective argument
 	setPool := []string{"m.k", "m.zz", "st.P", "np", "l[1]", "l[9]", "nope", "s", "e", "n", "nm.k", "st.D.a", "st.D.zz", "ms.a.Name"}
 	var sargs, iss []string
